@@ -4,8 +4,8 @@ import "math/rand"
 
 // withRepeats makes an option list ORDER-sensitive: it inserts, at random positions, further options
 // whose keys may already occur (a second mask, a nil mask switching an earlier one off, more-update /
-// more-writable masks before and after the mask they extend, allow-missing switched off again, flags
-// given twice). Options are applied in the order given, so the reference resolves the list first.
+// more-writable masks before and after the mask they extend, allow-missing switched off again, callbacks,
+// checks and interceptors replaced by nil, flags given twice). Options are applied in the order given, so the reference resolves the list first.
 func withRepeats(r *rand.Rand, opts []string, kind string) []string {
 	if r.Intn(100) >= 30 {
 		return opts
@@ -15,16 +15,19 @@ func withRepeats(r *rand.Rand, opts []string, kind string) []string {
 		var t string
 		switch kind {
 		case "get", "list", "vget":
-			t = pick(r, []string{"rm=nil", "rm=" + pick(r, maskPool), "rm=" + pick(r, maskPool), "inc=nil",
+			t = pick(r, []string{"rm=nil", "rm=" + pick(r, masks()), "rm=" + pick(r, masks()), "inc=nil",
 				"inc=" + pick(r, incPool), "uo", "bp0", "bp"})
 			if kind != "list" && (t == "uo" || t == "bp" || t == "bp0") {
 				t = "rm=nil"
 			}
 		default:
-			t = pick(r, []string{"um=nil", "um=" + pick(r, maskPool), "mum=" + pick(r, maskPool), "mum=" + pick(r, maskPool),
-				"rs=nil", "rs=" + pick(r, maskPool), "ev=nil", "am0", "am", "mw=" + pick(r, wPool), "mw=" + pick(r, wPool),
+			t = pick(r, []string{"um=nil", "um=" + pick(r, masks()), "mum=" + pick(r, masks()), "mum=" + pick(r, masks()),
+				"rs=nil", "rs=" + pick(r, masks()), "ev=nil", "am0", "am", "mw=" + pick(r, wMasks()), "mw=" + pick(r, wMasks()),
 				"wt=" + genInstant(r), "chk=aEq:" + []string{"0", "1", "2"}[r.Intn(3)], "bf=" + pick(r, bfPool),
-				"af=" + pick(r, afPool), "cia", "nw", "ccb", "icb"})
+				"af=" + pick(r, afPool), "cia", "nw", "ccb", "icb", "chk=nil", "bf=nil", "af=nil", "ccb0", "icb0"})
+		}
+		if genPos && (len(t) > 3 && (t[:3] == "bf=" || t[:3] == "af=")) {
+			t = "nw" // the named interceptors are written for the first message type
 		}
 		i := r.Intn(len(out) + 1)
 		out = append(out[:i], append([]string{t}, out[i:]...)...)
